@@ -227,7 +227,15 @@ func runSolver(ctx context.Context, sp solverSpec, dir, text string, timeoutS in
 		o = out.String()
 		timedOut = cctx.Err() != nil
 	}
-	first := strings.TrimSpace(strings.SplitN(o, "\n", 2)[0])
+	first := ""
+	for _, ln := range strings.Split(o, "\n") {
+		ln = strings.TrimSpace(ln)
+		if ln == "" || strings.HasPrefix(ln, "WARNING") {
+			continue // z3 warns about patterns it drops
+		}
+		first = ln
+		break
+	}
 	st := "error"
 	switch {
 	case first == "unsat":
